@@ -2,6 +2,7 @@
  * One fixed case list (identical in every build); every result is compared with the reference model, every k / cutoff of a
  * case must give the same digest, and the sum of all (case, digest) hashes is exported so that the driver compares builds. */
 #include "plecheck.h"
+#include "rankgen.h"
 const char *prop_id = "C12";
 
 static uint64_t H(uint64_t a, uint64_t b) { a ^= b + 0x9e3779b97f4a7c15ULL + (a << 6) + (a >> 2); a *= 0xff51afd7ed558ccdULL; a ^= a >> 33; return a; }
@@ -144,5 +145,42 @@ static void inv_trsm_solve_cases(void) {
   }
 }
 
-void prop_enumerate(void) { mul_cases(); ech_cases(); inv_trsm_solve_cases(); }
+/* rank profiles that make the block-recursive PLE work (left half rank deficient, second block not empty, rows below the rank):
+   FIXED shapes just above the recursion threshold of the smallest cache configuration, so that small-L3 builds recurse and
+   large-L3 builds do not - factor products, echelon forms and solvability verdicts must agree between them */
+static void rec_cases(void) {
+  static const int SH[][3] = {{4100, 128, 64}, {2734, 192, 128}, {2052, 200, 128}, {1369, 321, 192}};
+  static const int R1[] = {0, 1, 63, 64}, R2[] = {1, 64, 127};
+  for (int si = 0; si < (vx_tier ? 4 : 3); si++) for (int a = 0; a < 4; a++) for (int b = 0; b < 3; b++) for (int place = 1; place < 3; place++) {
+    int nr = SH[si][0], nc = SH[si][1], n1 = SH[si][2], r1 = R1[a], r2 = R2[b];
+    if (r1 > n1 || r2 > nc - n1) continue;
+    if (!vx_tier && ((a + b + place + si) % 2)) continue;
+    rk_spec sp; memset(&sp, 0, sizeof sp); sp.fam = F_REC; sp.r = nr; sp.c = nc; sp.aux = n1; sp.b = r1; sp.J = r2; sp.dens = place;
+    char nm[96]; rk_str(&sp, nm, sizeof nm);
+    vx_group();
+    pm *A = NULL, *R = NULL; ctx x; memset(&x, 0, sizeof x);
+    for (int alg = 0; alg < 4; alg++) {
+      static const char *an[] = {"mzd_pluq", "mzd_ple", "mzd_echelonize_pluq", "mzd_solve_left"};
+      if (!vx_case_begin("%s|%s", an[alg], nm)) continue;
+      if (!A) { A = rk_build(&sp); R = pm_rref(A); x.A = A; x.prof = vx_malloc(sizeof(int) * (size_t)(nr + nc + 1)); pm *t = pm_copy(A); x.rank = pm_echelon(t, 0, x.prof); pm_free(t); }
+      char id[128]; snprintf(id, sizeof id, "rec|%s|%s", an[alg], nm);
+      if (alg < 2) { check_one(alg == 0 ? V_PLUQ : V_PLE, 0, alg, &x, nm); record(id, H(pm_hash(R), (uint64_t)x.rank)); }
+      else if (alg == 2) { mzd_t *M = mzd_from_pm(A); rci_t r = mzd_echelonize_pluq(M, 1); uint64_t g = mzd_dig(M);
+        if (r != x.rank) vx_fail(an[alg], "rank-differs-from-reference", "%s: rank %d, reference %d", nm, r, x.rank);
+        if (g != pm_hash(R)) vx_fail(an[alg], "differs-from-reference", "%s: reduced echelon form differs from the reference", nm);
+        record(id, H(g, (uint64_t)r)); mzd_free(M); }
+      else { /* consistent system B = A*X0 (padded to max(m,n) rows) */
+        pm *X0 = pm_pat(nc, 3, (pat){P_PR, 0, 9}), *AX = pm_mul(A, X0); int rows = nr > nc ? nr : nc; pm *B = pm_new(rows, 3); memcpy(B->d, AX->d, (size_t)nr * AX->w * 8);
+        mzd_t *Az = mzd_from_pm(A), *Bz = mzd_from_pm(B); int ret = mzd_solve_left(Az, Bz, 0, 1);
+        if (ret != 0) vx_fail(an[alg], "verdict-differs-from-reference", "%s: returned %d for a consistent system", nm, ret);
+        else { pm *G = pm_from_mzd(Bz), *X = pm_sub(G, 0, 0, nc, 3), *AX2 = pm_mul(A, X); if (!pm_eq(AX2, AX)) vx_fail(an[alg], "differs-from-reference", "%s: A*X != B", nm); pm_free(G); pm_free(X); pm_free(AX2); }
+        record(id, (uint64_t)(ret == 0)); mzd_free(Az); mzd_free(Bz); pm_free(X0); pm_free(AX); pm_free(B); }
+      vx_input(pm_hash(A) ^ ((uint64_t)alg << 60), x.rank > 0);
+      vx_case_end();
+    }
+    if (A) { pm_free(A); pm_free(R); vx_free(x.prof); }
+  }
+}
+
+void prop_enumerate(void) { mul_cases(); ech_cases(); inv_trsm_solve_cases(); rec_cases(); }
 int main(int argc, char **argv) { return vx_main(argc, argv); }
